@@ -301,6 +301,21 @@ def lift_block(fb, it):
         if not m3:
             raise WeaveError(f'{fb.path}: lifted line is not `PATTERN => match X {{`: {line.strip()}')
         block = '{ ' + m3.group(1) + block + ' }'
+    frm = fb.lift.get('from')
+    if frm:
+        # R5d: the statements of the block before the first line matching the regex are dropped; the variables they bind are
+        # parameters of the generated function (operand evaluation and size computations stay outside the contract)
+        blines = block.split('\n')
+        try:
+            fre = re.compile(frm)
+        except re.error as e:
+            raise WeaveError(f'template line {fb.tline}: bad from= regex: {e}')
+        hit = next((q for q in range(1, len(blines)) if fre.search(blines[q])), None)
+        if hit is None:
+            raise WeaveError(f"lost anchor: {fb.path}: from=/{frm}/ not found in the lifted block")
+        for q in range(1, hit):
+            blines[q] = ''
+        block = '\n'.join(blines)
     bind = fb.opts.get('bind')
     if bind:
         # R5c: the first statement of the block must be the single-line `let NAME = EXPR;` and is dropped: NAME is a parameter of
@@ -366,7 +381,7 @@ def weave_fn(sc, fb, reach=False):
     if fb.lift is not None:
         it, raw = lift_block(fb, it)
     rules = fb.opts.get('rules')
-    rules = rules.split(',') if rules else ['R0', 'R1', 'R7', 'R8', 'R2', 'R3', 'R9', 'R10', 'R11', 'R12', 'R13', 'R15', 'R16', 'R17', 'R18', 'R20']
+    rules = rules.split(',') if rules else ['R0', 'R1', 'R7', 'R8', 'R2', 'R3', 'R9', 'R10', 'R11', 'R12', 'R13', 'R15', 'R16', 'R17', 'R18', 'R20', 'R21']
     counts = {}
     try:
         # phase A: line-preserving token rewrites
@@ -461,7 +476,7 @@ def weave_fn(sc, fb, reach=False):
             text, origin = apply_inserts(text, origin, inserts)
             # phase C: loop desugarings (line preserving)
             before = text.count('\n')
-            text, c = desugar(text, [r for r in rules if r in ('R2', 'R3', 'R9', 'R10', 'R11', 'R12', 'R13', 'R15', 'R16', 'R17', 'R18', 'R20')])
+            text, c = desugar(text, [r for r in rules if r in ('R2', 'R3', 'R9', 'R10', 'R11', 'R12', 'R13', 'R15', 'R16', 'R17', 'R18', 'R20', 'R21')])
             counts.update(c)
             if text.count('\n') != before:
                 raise WeaveError(f'internal: desugaring changed the line count of {fb.path}')
@@ -636,7 +651,13 @@ def process_template(tmpl_path, repo, reach=False):
             mm = re.match(r'^(\S+)\s+(\S+)\s+/(.*)/\s+(\d+)\s*(.*)$', rest)
             if not mm:
                 raise WeaveError(f'template line {tl}: bad //@lift directive')
-            flags, kv = _kv(mm.group(5).split())
+            rest5 = mm.group(5)
+            mfrom = re.search(r'from=/((?:[^/\\]|\\.)*)/', rest5)
+            lift_from = None
+            if mfrom:
+                lift_from = mfrom.group(1)
+                rest5 = rest5[:mfrom.start()] + rest5[mfrom.end():]
+            flags, kv = _kv(rest5.split())
             for fl in flags:
                 kv[fl] = True
             if assume_mode:
@@ -644,6 +665,8 @@ def process_template(tmpl_path, repo, reach=False):
                 kv['assumed_from'] = assume_mode
             fb = FnBlock(mm.group(1), mm.group(2), kv, tl)
             fb.lift = dict(regex=mm.group(3), occ=int(mm.group(4)))
+            if lift_from:
+                fb.lift['from'] = lift_from
         elif d in ('params', 'returns'):
             if fb is None or fb.lift is None:
                 raise WeaveError(f'template line {tl}: //@{d} outside //@lift')
